@@ -32,7 +32,8 @@ for d in sorted(glob.glob(os.path.join(V, "seeded/*/"))):
         rn = _re.search(r"-r(\d)-", s)
         rn = rn.group(1) if rn else "2"
         what = {"2": "three changes per property", "3": "four per property: numeric boundary, rare valid input shape, error/fault/history path, concurrency/order/state or caller",
-                "4": "four per property: glue/caller (main.go, shared helpers, bucket and URL handling), looks-like-an-optimisation, check weakened/moved/error swallowed, left-behind state"}.get(rn, "")
+                "4": "four per property: glue/caller (main.go, shared helpers, bucket and URL handling), looks-like-an-optimisation, check weakened/moved/error swallowed, left-behind state",
+                "6": "three per property for ten properties, all three required to be subtle"}.get(rn, "")
         m["origin"] = "round %s: fresh sub-agent given only the property text and a scratch worktree (%s)" % (rn, what)
         rd = os.path.join(d, "README.md")
         if os.path.exists(rd):
